@@ -95,6 +95,11 @@ func checkStoryFacts(c ExecCase) (v *Violation, f storyFacts) {
 		if ex.Class != EOK && ex.Bool {
 			return violf("%s: Exists returned true together with an error", at), f
 		}
+		if open && hasPredicate(pr.tree.Root) {
+			// lax short-circuits make even the value of a predicate (and which error is met)
+			// depend on the member order of each run: the entry points are not comparable
+			continue
+		}
 		if open && m.name == "silent" {
 			// a silent run stops at the first suppressed error, and with an open
 			// member order two runs may stop at different points: their partial
@@ -172,6 +177,9 @@ func checkStoryFacts(c ExecCase) (v *Violation, f storyFacts) {
 				}
 			}
 		}
+	}
+	if open && hasPredicate(pr.tree.Root) {
+		return nil, f
 	}
 	// When (verbose) Query succeeds, Exists says whether its result is non-empty
 	if verbose.Query.Class == EOK {
